@@ -18,4 +18,34 @@ def showOptNat : Option Nat → String
   | some n => toString n
   | none => "none"
 
+def hexVal (c : Char) : Option Nat :=
+  if '0' ≤ c ∧ c ≤ '9' then some (c.toNat - '0'.toNat)
+  else if 'a' ≤ c ∧ c ≤ 'f' then some (c.toNat - 'a'.toNat + 10)
+  else none
+
+def parseHexAux : List Char → Option (List UInt8)
+  | [] => some []
+  | [_] => none
+  | a :: b :: rest => do
+    let x ← hexVal a
+    let y ← hexVal b
+    let r ← parseHexAux rest
+    pure (UInt8.ofNat (16 * x + y) :: r)
+
+/-- hex string; "_" is the empty byte string -/
+def parseHex? (s : String) : Option (List UInt8) :=
+  if s = "_" then some [] else parseHexAux s.toList
+
+def parseHexList? (s : String) : Option (List (List UInt8)) :=
+  if s = "-" then some [] else (s.splitOn ",").mapM parseHex?
+
+def showBool (b : Bool) : String := if b then "1" else "0"
+
+/-- insertion sort + dedup of naturals (canonical output of sets) -/
+def insertNat (x : Nat) : List Nat → List Nat
+  | [] => [x]
+  | y :: ys => if x < y then x :: y :: ys else if x = y then y :: ys else y :: insertNat x ys
+
+def canonSet (l : List Nat) : List Nat := l.foldl (fun acc x => insertNat x acc) []
+
 end Drv
